@@ -682,6 +682,8 @@ class Interp:
         return z3.If(i < 0, i + n, i)
 
     def get_item(self, obj, key):
+        if isinstance(obj, C) and isinstance(key, LTuple) and all(isinstance(i, C) for i in key.items):
+            key = C(tuple(i.v for i in key.items))          # a tuple of constants is a constant key
         if isinstance(obj, C) and isinstance(key, C):
             try:
                 return self.wrap(obj.v[key.v])
